@@ -7,7 +7,7 @@ from session import Inconclusive
 BRAILLE = lambda ch: 0x2800 <= ord(ch) <= 0x28FF and ch != "⠀"
 
 
-def feedsim(vmon, lines, lat, lon, scratch, limit=False):
+def feedsim(vmon, lines, lat, lon, scratch, limit=False, max_range=None):
     fd, path = tempfile.mkstemp(prefix="feed-", suffix=".txt", dir=scratch)
     with os.fdopen(fd, "wb") as f:
         for l in lines:
@@ -16,6 +16,8 @@ def feedsim(vmon, lines, lat, lon, scratch, limit=False):
         argv = [vmon, "feedsim", "--lat", str(lat), "--long", str(lon), "--lines", path]
         if limit:
             argv.append("--limit-parsing")
+        if max_range is not None:
+            argv += ["--max-range", str(max_range)]
         out = subprocess.run(argv, capture_output=True, text=True, timeout=60)
         if out.returncode != 0:
             raise Inconclusive(f"feedsim failed: {out.stderr[-200:]}")
@@ -25,18 +27,32 @@ def feedsim(vmon, lines, lat, lon, scratch, limit=False):
 
 
 def traffic(rng, n, lat, lon, max_km=160):
-    """n aircraft around the receiver in all four quadrants with identification, velocity, position."""
+    """n aircraft around the receiver in all four quadrants with identification, velocity, position;
+    among them the unusual shapes: boundary addresses, callsigns with blanks and unassigned
+    characters, altitudes of 0 ft and above 50 000 ft, supersonic speeds, an aircraft right above
+    the receiver, surface position reports (counted, not placed)."""
     lines = []
     for k in range(n):
         addr = 0x3C0000 + rng.randrange(1 << 16) * 4 + (k % 4)
+        if k == 2 and rng.random() < 0.5:
+            addr = rng.choice([0x000000, 0x000001, 0xFFFFFE, 0x800000])
         brg = (k % 4) * 90 + rng.uniform(5, 85)
         la, lo = enc.destination(lat, lon, brg, rng.uniform(2, max_km))
+        if k == 3 and rng.random() < 0.5:
+            la, lo = lat, lon  # distance 0.000
         alt = 1000 + 25 * rng.randrange(1600)
+        if rng.random() < 0.15:
+            alt = rng.choice([-1000, -975, 0, 25, 50000, 50175])
         recs = []
         if rng.random() < 0.85:
-            recs.append(enc.long_frame(17, 5, addr, enc.me_ident(rng.randint(1, 4), 0, "R%04dX" % rng.randrange(10000))))
+            cs = rng.choice(["R%04dX" % rng.randrange(10000)] * 4 + ["AB  CD", "A#B#C#D#", "  LEAD", "X", "########", "12345678"])
+            recs.append(enc.long_frame(17, 5, addr, enc.me_ident(rng.randint(1, 4), rng.randrange(8), cs)))
         if rng.random() < 0.8:
-            recs.append(enc.long_frame(17, 5, addr, enc.me_velocity(rng.randrange(2), rng.randrange(1, 700), rng.randrange(2), rng.randrange(1, 700), rng.randrange(2), rng.randrange(1, 200))))
+            recs.append(enc.long_frame(17, 5, addr, enc.me_velocity(rng.randrange(2), rng.choice([1, 2, 1023, rng.randrange(1, 700)]), rng.randrange(2), rng.choice([1, 1023, rng.randrange(1, 700)]), rng.randrange(2), rng.choice([1, 511, rng.randrange(1, 200)]), subtype=rng.choice([1, 1, 1, 2]))))
+        if rng.random() < 0.1:
+            # a surface position report: the tracker counts it and stores nothing from it
+            m = bytearray(enc.me_unique(rng.choice([5, 6, 7, 8]), rng.randrange(1 << 40)))
+            recs.append(enc.long_frame(17, 4, addr, bytes(m)))
         mode = rng.random()
         # a climbing aircraft: the even and the odd report carry different altitudes
         alt2 = alt + rng.choice([0, 0, 100, -225, 2000])
@@ -107,20 +123,27 @@ def rows_equal(col, rows, sim, cls, inp, phase):
 
 
 def data_session(col, binpath, vmon, rng, tag, scratch):
-    lat, lon = rng.choice([(52.0, 4.0), (0.5, 0.5), (-33.9, 151.2), (64.1, -21.9), (35.0, 179.5)])
+    lat, lon = rng.choice([(52.0, 4.0), (0.5, 0.5), (-33.9, 151.2), (64.1, -21.9), (35.0, 179.5), (-0.3, -0.2), (89.2, 10.0), (-0.0004, 100.0)])
     n = rng.choice([1, 3, 8, 20, 30])
     lines = traffic(rng, n, lat, lon) + [sentinel_line(0)]
     limit = rng.random() < 0.2
-    sim = feedsim(vmon, lines, lat, lon, scratch, limit)
+    # display options must not change what the Airplanes tab says; the range setting goes to the oracle too
+    extra_opts = [o for o in ["--disable-lat-long", "--disable-callsign", "--disable-icao", "--disable-heading", "--disable-track", "--touchscreen"] if rng.random() < 0.3]
+    if rng.random() < 0.3:
+        extra_opts += ["--scale=" + rng.choice(["0.05", "0.5", "3"])]
+    max_range = rng.choice([None, None, 60.0, 5000.0])
+    if max_range is not None:
+        extra_opts += ["--max-range", str(max_range)]
+    sim = feedsim(vmon, lines, lat, lon, scratch, limit, max_range)
     # a second batch, released after the view controls: updated positions of known aircraft + new aircraft
     lines2 = traffic(rng, rng.choice([1, 2, 5]), lat, lon)
     for l in lines[: len(lines) // 3]:
         lines2.append(l)
     rng.shuffle(lines2)
     lines2.append(sentinel_line(1))
-    sim2 = feedsim(vmon, lines + lines2, lat, lon, scratch, limit)
+    sim2 = feedsim(vmon, lines + lines2, lat, lon, scratch, limit, max_range)
     plan = [("send", b"".join(lines)), ("mark", "feed_done"), ("wait_for", "batch2"), ("send", b"".join(lines2)), ("mark", "feed2_done"), ("sleep", 90)]
-    opts = ["--filter-time", "100000"] + (["--limit-parsing"] if limit else [])
+    opts = ["--filter-time", "100000"] + (["--limit-parsing"] if limit else []) + extra_opts
     sess = session.RadarSession(binpath, plan, lat=lat, lon=lon, opts=opts, rows=60, cols=200, scratch=scratch)
     inp = {"receiver": [lat, lon], "options": opts, "lines": [l.decode() for l in lines], "tag": tag}
     try:
